@@ -114,10 +114,16 @@ def run_a(case):
     except Exception as e:
         F('leak', 'fromDateTime/asDateTime leaked %s: %s' % (harness.exc_sig(e), str(e)[:120]), harness.exc_sig(e))
         return fails
-    if r.tzinfo is None or r.utcoffset() is None:
+    try:
+        naive = r.tzinfo is None or r.utcoffset() is None
+        got_t, got_off = (None, None) if naive else dt_instant(r)
+    except Exception as e:
+        # the datetime handed back cannot even be asked for its offset (a tzinfo outside +-24 h, ...)
+        F('unusable', 'the datetime returned for %r is unusable: %s: %s' % (text, type(e).__name__, str(e)[:100]), type(e).__name__)
+        return fails
+    if naive:
         F('naive', 'asDateTime returned a naive datetime (string %r)' % text)
         return fails
-    got_t, got_off = dt_instant(r)
     if got_t != want_t:
         F('instant', 'round trip changes the instant by %s s (string %r, got %s)' % (float(got_t - want_t), text, r.isoformat()),
           'offset' if off else ('year<1000' if y < 1000 else 'other'))
